@@ -23,6 +23,7 @@ int main(int argc, char **argv) {
   std::vector<Mode> modes;
   for (const char *prop : {"C02", "C04", "C18"})
     for (const char *kind : {"gen", "mut", "raw"}) { std::string p = prop, k = kind; modes.push_back({p + "-" + k, [p, k] { return g_case(p, k, k == "raw" ? 1.0 : 6.0); }}); }
+  for (const char *kind : {"gen", "mut"}) { std::string k = kind; modes.push_back({"C14-" + k, [k] { return g_case("C14", k, 4.0); }}); }
   modes.push_back({"C03-gen", [] { return g_case("C03", "gen", 6.0); }});
   modes.push_back({"C03-mut", [] { return g_case("C03", "mut", 6.0); }});
   modes.push_back({"C03-build", [] { return g_case("C03", "build", 6.0); }});
